@@ -429,7 +429,7 @@ PROPS["C12"] = {
             "clients wrote the same id with overlapping call intervals (measured from the recorded history). Distinct = distinct "
             "canonical JSON.",
     "assumptions": COMMON_ASSUMPTIONS + [
-        "schedules are sampled (spin delays, 16 cores, race detector), not enumerated or controlled; the optional yield hooks of the property were not built",
+        "schedules are sampled (spin delays, slow storage, schedule noise through Context.PointHook and the verif-tag yield points at lock boundaries, 16 cores, race detector), not enumerated or owned by the harness",
         "expiry-driven removals have a part of their own (real time, one case per second): the linearizability oracle is not applied there, only crash / race / never-resurrected / gone-afterwards / bystanders-untouched",
         "a failure found here is schedule-dependent: the saved case reproduces it only with some probability",
     ],
